@@ -299,6 +299,24 @@ func runC06(c *fw.Ctx, idx int) fw.Result {
 		res.Fail("error-on-valid-input", "closest returned an error on valid input: "+err.Error(), files, argv)
 		return res
 	}
+	if idx%20 == 5 {
+		binSample(c, &res, idx, "closest", map[string]string{"query.fasta": qText, "target.fasta": tText}, func(p func(string) string) []string {
+			a := []string{"closest", "--query", p("query.fasta"), "--target", p("target.fasta"), "-m", []string{measure, strings.ToUpper(measure)}[idx%2]}
+			if threads != 0 {
+				a = append(a, "-t", fmt.Sprint(threads))
+			}
+			if n > 0 {
+				a = append(a, "-n", fmt.Sprint(n))
+			}
+			if D != -1.0 {
+				a = append(a, "-d", strconv.FormatFloat(D, 'g', -1, 64))
+			}
+			if table && !plain {
+				a = append(a, "--table")
+			}
+			return a
+		}, nil, map[bool]string{true: "", false: "-o"}[idx%3 == 0], out)
+	}
 	lines := strings.Split(strings.TrimSuffix(out, "\n"), "\n")
 	// parse observed per query: names and printed distances
 	obsNames := make([][]string, len(qs))
